@@ -31,7 +31,7 @@ CHATTER = ['hello world', '', ' ', '\t \t', 'libEGL warning: DRI2: failed to aut
 
 def plan(tier, seed):
     if tier == 'quick':
-        return [{'n': 12, 'len': [10, 45], 'cuts': 'all'} for _ in range(16)]
+        return [{'n': 12, 'len': [10, 45], 'cuts': 'all'} for _ in range(14)] + [{'mode': 'proc', 'n': 2} for _ in range(2)]
     return [{'n': 40, 'len': [10, 120], 'cuts': 'all'} for _ in range(60)] + [{'mode': 'proc', 'n': 12} for _ in range(4)]
 
 
